@@ -9,7 +9,7 @@ python3 - <<'PY'
 import sys
 sys.path.insert(0, ".")
 from vlib import common as C
-for b in ["dev"]:
+for b in ["dev", "release", "avx2"]:
     rc, err, _ = C.harness_build(b)
     if rc != 0:
         print(err); sys.exit(1)
